@@ -67,7 +67,11 @@ def ref_dumps(ref):
 
 
 def frame(framing, unit, tid, m):
-    return adu.build(framing, unit, pdu.encode(m) if isinstance(m, dict) else bytes(m), tid=tid)
+    pid = 0
+    if isinstance(m, dict) and '_pid' in m:
+        m = dict(m)
+        pid = m.pop('_pid')            # an MBAP protocol identifier other than 0 (TCP framing only)
+    return adu.build(framing, unit, pdu.encode(m) if isinstance(m, dict) else bytes(m), tid=tid, pid=pid)
 
 
 def parse_out(framing, writes):
@@ -136,6 +140,8 @@ def token(tok, pos, cfg):
         return host, dict(kind='req', fc=16, address=1, count=3, byte_count=6, registers=[0x0E00 + pos, 0x0E10 + pos, 0x0E20 + pos])
     if tok == 'S':
         return host, b'\x03\x00'          # a frame whose PDU is shorter than its function's layout: handling it raises
+    if tok == 'RP':
+        return host, dict(kind='req', fc=3, address=1, count=1, _pid=0x1234)     # protocol identifier 0x1234 in the MBAP header
     if tok == 'I0':
         return host, dict(kind='req', fc=0x2B, read_code=0, object_id=0)     # a read code no category is defined for
     raise ValueError(tok)
